@@ -26,6 +26,11 @@ func (dv *Router) ribUpdate(ns *table.NeighborState) {
 	dv.rib.DirtyResetNextHop(ns.Name)
 
 	for _, entry := range ns.Advert.Entries {
+		// Skip malformed entries (the decoder leaves absent fields nil)
+		if entry == nil || entry.Destination == nil || entry.NextHop == nil {
+			continue
+		}
+
 		// Use the advertised cost by default
 		cost := entry.Cost + localCost
 
